@@ -52,12 +52,16 @@ Definition orel (x y : option (res * @lp R A G)) : Prop :=
   | _, _ => False
   end.
 
+(* the empty-neighbourhood distribution still has one entry per arm (it always has when no_nhood_prob_of_arm is None;
+   add_arm / remove_arm do not resize a given list: finding D24, predict then raises where predict_expectations answers) *)
+Definition nbr_app (s : @nbr R A G) : Prop := nan_row (n_exp s) /\ nnprob_len_ok s = true.
+
 Lemma nbr_row_agree (s : @nbr R A G) l seed row orc :
-  nan_row (n_exp s) -> orel (nbr_row N aeqb RG s l seed row orc true) (nbr_row N aeqb RG s l seed row orc false).
+  nbr_app s -> orel (nbr_row N aeqb RG s l seed row orc true) (nbr_row N aeqb RG s l seed row orc false).
 Proof.
-  intros Hnan. unfold nbr_row. destruct (neighborhood N s row orc) as [idx|]; [|exact I].
+  intros [Hnan Hlen]. unfold nbr_row. destruct (neighborhood N s row orc) as [idx|]; [|exact I].
   destruct idx as [|i idx].
-  - destruct (draw_z RG (create RG seed) (RqChoice (length (n_arms s)) (n_nnprob s))) as [v g']. simpl. split; [reflexivity|]. right. exact Hnan.
+  - rewrite Hlen. cbn [negb]. destruct (draw_z RG (create RG seed) (RqChoice (length (n_arms s)) (n_nnprob s))) as [v g']. simpl. split; [reflexivity|]. right. exact Hnan.
   - destruct (lp_fit N aeqb l (create RG seed) _ _ _) as [l1 ok]. destruct ok; simpl; [|exact I].
     destruct (lp_expectations1 N aeqb RG l1 (create RG seed) row) as [[e l2] g2]. simpl. split; [reflexivity|].
     left. rewrite unsome_map. reflexivity.
@@ -66,7 +70,7 @@ Qed.
 Definition lrel (x y : option (list res)) : Prop :=
   match x, y with None, None => True | Some a, Some b => Forall2 rel a b | _, _ => False end.
 
-Lemma nbr_rows_agree (s : @nbr R A G) : nan_row (n_exp s) ->
+Lemma nbr_rows_agree (s : @nbr R A G) : nbr_app s ->
   forall seeds rows orcs l, lrel (nbr_rows N aeqb RG s l seeds rows orcs true) (nbr_rows N aeqb RG s l seeds rows orcs false).
 Proof.
   intros Hnan. induction seeds as [|sd seeds IH]; intros rows orcs l; simpl; [constructor|].
@@ -78,7 +82,7 @@ Proof.
   simpl. constructor; assumption.
 Qed.
 
-Lemma nbr_predict_agree (s : @nbr R A G) g cx orcs sizes : nan_row (n_exp s) ->
+Lemma nbr_predict_agree (s : @nbr R A G) g cx orcs sizes : nbr_app s ->
   lrel (fst (nbr_predict N aeqb RG s g cx orcs sizes true)) (fst (nbr_predict N aeqb RG s g cx orcs sizes false)) /\
   snd (nbr_predict N aeqb RG s g cx orcs sizes true) = snd (nbr_predict N aeqb RG s g cx orcs sizes false).
 Proof.
@@ -132,7 +136,7 @@ Qed.
 (* ---- the facade ---------------------------------------------------------------------------------------------- *)
 Definition c09_applicable (i : imp) : Prop :=
   match i with
-  | INbr s => nan_row (n_exp s)
+  | INbr s => nbr_app s
   | ITree s => tree_no_eps s
   | _ => True
   end.
